@@ -553,6 +553,58 @@ def fresh_thread_ops(ctx, impl):
                           expected='works as on a warmed-up thread')
 
 
+FRESH_VALUE_FORMULAS = [
+    '=ROUND(A1,0)', '=ROUND(A2,2)', '=ROUND(A3,0)', '=ROUND(A4,1)', '=ROUND(A5,0)', '=ROUND(A1*A3,0)', '=ROUNDUP(A2,2)',
+    '=ROUNDDOWN(A3,0)', '=MROUND(A1,1)', '=INT(A3)', '=TRUNC(A2,2)', '=CEILING(A1,1)', '=FLOOR(A3,1)', '=TEXT(A1,"0")',
+    '=TEXT(A2,"0.00")', '=FIXED(A2,2)', '=A1&""', '=A2*3', '=SUM(A1:A5)', '=AVERAGE(A1:A5)', '=A1/3', '=A1^0.5',
+    '=DATE(2020,2,A6)', '=YEAR(A7)', '=EDATE(A7,1)', '=YEARFRAC(A7,A7+365,1)', '=DEC2BIN(A6)', '=HEX2DEC("FF")',
+    '=VLOOKUP(A6,A1:B7,2,FALSE)', '=MATCH(A6,A1:A7,0)', '=SUMIF(A1:A7,">1")', '=COUNTIF(A1:A7,"<0")', '=LEFT(A8,2)',
+    '=FIND("b",A8)', '=SUBSTITUTE(A8,"b","x")', '=IF(A1>2,"big","small")', '=IFERROR(1/0,A1)', '=SUMPRODUCT(A1:A5,A1:A5)',
+]
+FRESH_VALUE_INPUTS = [[2.5, 0.125, -4.5, 0.25, 6.5, 29, 43831, 'abcb'], [0.5, 2.675, -0.5, 0.35, 1.5, 9, 36526, 'bab'],
+                      [3.5, 1.005, -2.5, 0.45, 8.5, 12, 2, 'xyz']]
+
+
+def fresh_thread_values(ctx, impl):
+    """A workbook of value functions (rounding ties, TEXT, dates, radix, lookups, text) evaluated on this thread and
+    on a thread that never used the library: every cell has the same value (class and repr).  Seeded change
+    C07-decimal-context-import-thread: the decimal rounding mode set once at import, i.e. for the importing thread only."""
+    import openpyxl
+    for n, inputs in enumerate(FRESH_VALUE_INPUTS):
+        def build():
+            owb = openpyxl.Workbook()
+            ws = owb.active
+            ws.title = 'S'
+            for r, v in enumerate(inputs, 1):
+                ws[f'A{r}'] = v
+                ws[f'B{r}'] = r * 10
+            for r, f in enumerate(FRESH_VALUE_FORMULAS, 1):
+                ws[f'D{r}'] = f
+            return owb
+        addrs = [f'S!D{r}' for r in range(1, len(FRESH_VALUE_FORMULAS) + 1)]
+
+        def evaluate_all(out):
+            comp = impl.ExcelCompiler(excel=build())
+            for a in addrs:
+                try:
+                    v = comp.evaluate(a)
+                    out[a] = f'{type(v).__name__}:{v!r}'
+                except Exception as exc:      # noqa: BLE001
+                    out[a] = f'raises {type(exc).__name__}'
+        here, there = {}, {}
+        evaluate_all(here)
+        t = threading.Thread(target=evaluate_all, args=(there,))
+        t.start()
+        t.join(120)
+        for a, f in zip(addrs, FRESH_VALUE_FORMULAS):
+            ctx.count(('fresh-values', n, a), kind='fresh-thread:values')
+            if here.get(a) != there.get(a):
+                ctx.violation(dict(call='fresh-thread-values', formula=f, inputs=inputs,
+                                   args=['thread that never used the library']),
+                              "a formula evaluates differently on a brand-new thread", impl=there.get(a),
+                              expected=here.get(a))
+
+
 @__import__('harness.common', fromlist=['known_predicate']).known_predicate('C07-func-meta-name-space')
 def _k_backpointer(case):
     """apply_meta stores the namespace of the formula that loaded a function last in the function's own
@@ -647,6 +699,7 @@ def run(ctx):
         "and the static inventory of module/class-level mutable objects")
     check_inventory(ctx, REPO)
     fresh_thread_ops(ctx, impl)
+    fresh_thread_values(ctx, impl)
     backpointer_probe(ctx, impl)
     wls = gen_workloads(ctx, impl)
     warm_wl = Workload(impl, 'iter', wls[0].wb if wls[0].kind == 'iter' else
